@@ -264,3 +264,59 @@ def run_operand_index(facts, rep, files, floor=0):
                     rep.unresolved(Rn, key, "slot %s vs operand index %s not comparable" % (pshow(s), pshow(q)), facts.loc(p, x))
     rep.floor(Rn, "in-place operations with a per-prime operand", n, floor)
     return n
+
+
+def run_half(facts, rep, files=("src/util/rns.rs",), floor=0):
+    """R-RESDOM(half) [N]: centring thresholds and rounding offsets of the RNS tool are HALF of their modulus.
+
+    The base-conversion and divide-and-round routines centre a residue (values above the threshold stand for negative numbers:
+    `if x > T { .. M - x .. }`) or turn a flooring division into a rounding one (`x + T` before dividing by M).  In both uses T
+    must be floor(M / 2).  Each local defined as `M.value() >> k` / `M.value() / c` with a literal k / c in these files is
+    such a threshold; k must be 1 (c must be 2).  With a quarter of the modulus, a quarter of the residue range — positive
+    values in (M/4, M/2] — is taken for negative: the conversion is off by a multiple of the auxiliary modulus for those
+    inputs (large-magnitude operands the suite never produces)."""
+    RH = "R-RESDOM(half)"
+    rep.rule(RH, "every threshold / offset defined as a shifted or divided modulus value in the RNS tool is exactly half of it")
+    n = 0
+    for p in sorted(facts.hir):
+        it = facts.items[p]
+        if it["file"] not in files or "::tests::" in p:
+            continue
+        body = facts.hir[p]
+        for x in walk(body):
+            if not (x.get("k") == "Let" and x["pat"].get("k") == "PBind" and "init" in x):
+                continue
+            e = strip(x["init"])
+            if not (e.get("k") == "Bin" and e.get("op") in (">>", "/")):
+                continue
+            a, b = strip(e["a"]), strip(e["b"])
+            if not (a.get("k") == "MCall" and a.get("name") == "value" and b.get("k") == "Lit"):
+                continue
+            try:
+                lit = int(str(b.get("v", "")).split("_")[0])
+            except ValueError:
+                continue
+            n += 1
+            rep.fn(p)
+            key = "%s/%s" % (p, x["pat"]["name"])
+            half = (e["op"] == ">>" and lit == 1) or (e["op"] == "/" and lit == 2)
+            # is the local used as a comparison operand or an additive offset?
+            lid = x["pat"]["lid"]
+            used = False
+            for y in walk(body):
+                if y.get("k") == "Bin" and y.get("op") in (">", ">=", "<", "<=", "+") and \
+                        any(local_of(z) and local_of(z)[0] == lid for z in (y["a"], y["b"])):
+                    used = True
+                if y.get("k") in ("Call", "MCall") and any(local_of(z) and local_of(z)[0] == lid for z in y.get("args", [])):
+                    used = True
+            if half:
+                rep.ok(RH, key, "`%s` is half of its modulus" % x["pat"]["name"], facts.loc(p, x), sample={"function": p})
+            elif used:
+                rep.violation(RH, key, "`%s` = modulus %s %d is used as a centring threshold / rounding offset but is not half of the "
+                              "modulus: residues between it and the true half are taken for negative numbers (or the rounding is "
+                              "biased), so the conversion is off by a multiple of the modulus for those inputs" %
+                              (x["pat"]["name"], e["op"], lit), facts.loc(p, x))
+            else:
+                rep.unresolved(RH, key, "shifted modulus value with an unrecognised use", facts.loc(p, x))
+    rep.floor(RH, "thresholds defined from a modulus value", n, floor)
+    return n
